@@ -39,7 +39,7 @@ def shards(tier, seed):
 def floors(tier):
     return {"height:calls": 3000, "height:nontrivial_profiles": 1500, "gauge:pairs": 800, "rref:probe_calls": 3000,
             "graph:calls": 500, "n_emitters:calls": 500, "solver:runs": 60, "solver:photons_checked": 200,
-            "dense_entropy_crosscheck": 100, "emitter_sorted:calls": 20}
+            "dense_entropy_crosscheck": 100, "emitter_sorted:calls": 400, "emitter_sorted:graphs_n>=6": 800}
 
 
 class RrefProbe:
@@ -126,12 +126,17 @@ def run_shard(spec, ctx):
             check_graph(A, order, ctx, probe)
         # emitter_sorted on small batches
         from graphiq.utils.relabel_module import emitter_sorted
-        for i in range(max(20, spec["count"] // 10)):
-            n = int(rng.integers(3, 9))
-            adjs = [graphs.random_graph(rng, n, 0.5) for _ in range(int(rng.integers(2, 7)))]
+        for i in range(max(150, spec["count"] // 4)):
+            n = int(rng.integers(3, 13))
+            adjs = [graphs.random_graph(rng, n, [0.5, 0.3, 0.7][i % 3]) for _ in range(int(rng.integers(2, 7)))]
+            if i % 4 == 0:
+                # relabellings of one graph (what iso_finder hands over): the count depends on the order, the edge count does not
+                adjs = [adjs[0][np.ix_(pm, pm)] for pm in (rng.permutation(n) for _ in range(len(adjs)))]
             case = {"kind": "emitter_sorted", "adjs": [a.tolist() for a in adjs]}
             ctx.case(("es",) + tuple(a.tobytes() for a in adjs), True)
             ctx.count("emitter_sorted:calls")
+            if n >= 6:
+                ctx.count("emitter_sorted:graphs_n>=6", len(adjs))
             try:
                 res = emitter_sorted(np.array(adjs))
             except Exception as e:
